@@ -1,6 +1,6 @@
 CONSTANTS
   Defects = {"open304"}
-  Family = "cache"
+  Family = "cache_small"
   Deep = FALSE
 INIT Init
 NEXT Next
